@@ -446,6 +446,9 @@ def check_scaling(chk, sc, c):
         if bool(((nrm > 0) & (nrm < 10 * eps)).any()):
             chk.count("scaling_skipped_subeps")
             return
+    if sc.get("x0") is not None and bool(((bn == 0) & (sc["x0"].double().abs().amax(-2) > 0)).any()):
+        chk.count("scaling_skipped_zero_rhs_with_guess")   # not normalised: absolute thresholds act on c*x0, outside the scaling law
+        return
     r1 = run_impl(sc)
     sc2 = dict(sc)
     sc2["rhs"] = sc["rhs"] * c
